@@ -8,7 +8,7 @@
      cfdm/data/data.py             Data.apply_masking
    as repaired by handoff/C07-fix-1..5.diff and handoff/C07-fix2-3.diff (safe-cast test and
    valid_range precedence in apply_masking); the superseded behaviour is kept in the
-   ..._old definitions (witnesses in Refuted.v).
+   ..._old definitions (witnesses in Refuted.v).  handoff/C07-fix3-1.diff: identity packing.
 
    Values.  Integers are exact in Z with the range of their numpy type and
    two's-complement wrap-around.  A float value is either NaN or an integer-valued
@@ -232,8 +232,32 @@ Definition add_num (r : dt) (a b : num) : num :=
 
 Definition num_neqb (a b : num) : bool := negb (num_eqb a b).
 
-(* one unmasked element; dd is the data type after the _Unsigned view *)
+(* one unmasked element; dd is the data type after the _Unsigned view.  When the scale
+   factor is 1 and the offset 0 no arithmetic is done, and (handoff/C07-fix3-1.diff) the
+   element is converted to the type the arithmetic would have given. *)
 Definition unpack_elem (dd : dt) (s o : option (dt * num)) (x : num) : num :=
+  match s, o with
+  | Some (ts, sv), Some (to, ov) =>
+    if num_neqb ov (Fin 0) || num_neqb sv (Fin 1) then
+      add_num (promote (promote dd ts) to) (mul_num (promote dd ts) x sv) ov
+    else cast (promote (promote dd ts) to) x
+  | Some (ts, sv), None =>
+    if num_neqb sv (Fin 1) then mul_num (promote dd ts) x sv else cast (promote dd ts) x
+  | None, Some (to, ov) =>
+    if num_neqb ov (Fin 0) then add_num (promote dd to) x ov else cast (promote dd to) x
+  | None, None => x
+  end.
+
+Definition unpack_dt (dd : dt) (s o : option (dt * num)) : dt :=
+  match s, o with
+  | Some (ts, sv), Some (to, ov) => promote (promote dd ts) to
+  | Some (ts, sv), None => promote dd ts
+  | None, Some (to, ov) => promote dd to
+  | None, None => dd
+  end.
+
+(* before fix3-1: the identity branches cast to the attribute's own type *)
+Definition unpack_elem_old (dd : dt) (s o : option (dt * num)) (x : num) : num :=
   match s, o with
   | Some (ts, sv), Some (to, ov) =>
     if num_neqb ov (Fin 0) || num_neqb sv (Fin 1) then
@@ -244,15 +268,6 @@ Definition unpack_elem (dd : dt) (s o : option (dt * num)) (x : num) : num :=
   | None, Some (to, ov) =>
     if num_neqb ov (Fin 0) then add_num (promote dd to) x ov else cast to x
   | None, None => x
-  end.
-
-Definition unpack_dt (dd : dt) (s o : option (dt * num)) : dt :=
-  match s, o with
-  | Some (ts, sv), Some (to, ov) =>
-    if num_neqb ov (Fin 0) || num_neqb sv (Fin 1) then promote (promote dd ts) to else ts
-  | Some (ts, sv), None => if num_neqb sv (Fin 1) then promote dd ts else ts
-  | None, Some (to, ov) => if num_neqb ov (Fin 0) then promote dd to else to
-  | None, None => dd
   end.
 
 Definition unpack_model (dd : dt) (A : attrs) (vals : list (option num)) : dt * list (option num) :=
@@ -274,6 +289,71 @@ Definition read_model (d : dt) (A : attrs) (mask unpack : bool) (raw : list num)
   let data := map (vw d view) raw in
   let vals := if mask then apply_mask data (mask_model d A view data) else map Some data in
   if unpack then unpack_model dd A vals else (dd, vals).
+
+(* ------------------------------------------------------------------ stored byte order *)
+(* A netCDF-4 variable is stored little- or big-endian (createVariable(endian=)).  The
+   library hands netcdf_indexer an array whose dtype carries that byte order, so element
+   VALUES do not depend on it; the one place where the bytes themselves matter is the
+   _Unsigned view, data.view(f"{byteorder}u{itemsize}"): the bytes are kept and re-read as
+   unsigned integers in the byte order of the VIEW type, which __getitem__ takes from the
+   data.  Integer elements are therefore modelled as their stored bytes; float elements
+   (never viewed) stay values. *)
+Inductive border := LE | BE.
+
+Definition nbytes (d : dt) : nat := Z.to_nat (nbits d / 8).
+
+Fixpoint to_le (k : nat) (u : Z) : list Z :=
+  match k with O => [] | S k' => u mod 256 :: to_le k' (u / 256) end.
+
+Fixpoint of_le (bs : list Z) : Z :=
+  match bs with [] => 0 | b :: r => b + 256 * of_le r end.
+
+Definition order (bo : border) (bs : list Z) : list Z :=
+  match bo with LE => bs | BE => rev bs end.
+
+Inductive cell := CInt (bs : list Z) | CFlt (v : num).
+
+(* the bytes on disk / in the array buffer of value v of type d stored in order bo *)
+Definition store (bo : border) (d : dt) (v : num) : cell :=
+  if is_float d then CFlt v else
+  match v with
+  | Fin z => CInt (order bo (to_le (nbytes d) (z mod 2 ^ nbits d)))
+  | NaN => CFlt NaN
+  end.
+
+(* the value of an element of an array of type d and byte order bo *)
+Definition load (bo : border) (d : dt) (c : cell) : num :=
+  match c with
+  | CFlt v => v
+  | CInt bs =>
+    let u := of_le (order bo bs) in
+    Fin (if is_signed d && (2 ^ (nbits d - 1) <=? u) then u - 2 ^ nbits d else u)
+  end.
+
+(* ndarray.view(unsigned type of the same size and of byte order vbo) *)
+Definition view_cell (vbo : border) (c : cell) : num :=
+  match c with CFlt v => v | CInt bs => Fin (of_le (order vbo bs)) end.
+
+(* __getitem__ after the raw view *)
+Definition read_tail (d : dt) (A : attrs) (mask unpack view : bool) (data : list num)
+  : dt * list (option num) :=
+  let dd := if view then view_dt d else d in
+  let vals := if mask then apply_mask data (mask_model d A view data) else map Some data in
+  if unpack then unpack_model dd A vals else (dd, vals).
+
+(* __getitem__ on stored cells; [vbo] gives the byte order of the view type from the byte
+   order of the data *)
+Definition read_stored_with (vbo : border -> border) (bo : border) (d : dt) (A : attrs)
+           (mask unpack : bool) (cells : list cell) : dt * list (option num) :=
+  let view := do_view d A unpack in
+  read_tail d A mask unpack view
+            (map (fun c => if view then view_cell (vbo bo) c else load bo d c) cells).
+
+(* the code as it is: the view type keeps the byte order of the data *)
+Definition read_stored := read_stored_with (fun bo => bo).
+
+(* a view type built as "u<itemsize>" has the native byte order (little-endian here) *)
+Definition read_stored_native_view := read_stored_with (fun _ => LE).
 
 (* ------------------------------------------------------------------ apply_masking *)
 (* the properties a mask=False read leaves on the construct: _FillValue is set to the
